@@ -465,6 +465,14 @@ def symbolic_comprehension(eng, n, fr, kind, first):
         if isinstance(vv, _Op):
             k, proto, vv = "ref", vv.proto, Sym(vv.z, "ref")
         if k is None:
+            from . import models as _models
+
+            for hook in getattr(_models, "EXTRA_ELEMENT_HOOKS", ()):  # extension values for non-scalar elements (pyvc/ext_*.py)
+                r = hook(eng, vv, i, nz, kind)
+                if r is not None:
+                    if isinstance(first, Iter):
+                        first.consumed = True
+                    return r
             raise Unsupported(f"comprehension element of type {type(vv).__name__} over a symbolic sequence")
         p = PList()
         p.items, p.kinds, p.tup, p.n = None, [k], False, z3.simplify(nz)
